@@ -17,9 +17,10 @@ def run(ck, thorough):
     ck.drive("scope", "replay", "-cases", cases, "-out", ck.path("c03scope-unused.ndjson"), "-sample", 1000000, "-c03", progs, timeout=3000)
     lines = [x for x in open(progs) if x.strip()]
     cap = 60000 if thorough else 12000
-    if len(lines) > cap:                      # deterministic stride; every rejected program is kept
-        stride = len(lines) // cap + 1
-        lines = [x for k, x in enumerate(lines) if k % stride == 0 or '"reject"' in x]
+    if len(lines) > cap:                      # deterministic stride; every rejected program and every program with a while loop
+        stride = len(lines) // cap + 1        # (the statement Options.WhileToFor rewrites) is kept
+        wh = json.dumps(list(b"while("), separators=(",", ":"))[1:-1]
+        lines = [x for k, x in enumerate(lines) if k % stride == 0 or '"reject"' in x or wh in x]
         with open(progs, "w") as f:
             f.writelines(lines)
     tp = ck.path("c03scope-trace.ndjson")
